@@ -149,6 +149,90 @@ fn run_newline(case: &Value, r: &RunCtx) -> Outcome {
     o
 }
 
+/// A real file that starts with a byte-order mark (the parser works on a copy without it):
+/// `--check` must exit with 1 exactly when plain `rustfmt` rewrites the file, `-l` must list it in
+/// exactly that case in both modes, and a rewritten file holds the complete formatted text.
+fn run_bom(case: &Value, r: &RunCtx) -> Outcome {
+    let body = case["body"].as_str().unwrap_or("");
+    let w = format_text(body, &vec![]);
+    if !w.clean() {
+        return Outcome::skip("module-does-not-format");
+    }
+    let formatted = case["formatted"].as_bool().unwrap_or(false);
+    let lf_text = if formatted { w.text.clone() } else { body.to_string() };
+    let on_disk = format!("\u{feff}{lf_text}");
+    let style = case["style"].as_str().unwrap_or("Default");
+    let base = r.tmp.join(format!("c06b-{}", r.case_no));
+    let _ = std::fs::remove_dir_all(&base);
+    let fresh = |name: &str| -> std::path::PathBuf {
+        let d = base.join(name);
+        let _ = std::fs::create_dir_all(&d);
+        let _ = std::fs::write(d.join("lib.rs"), &on_disk);
+        set_past_mtimes(&d);
+        d
+    };
+    let args = |extra: &[&str]| -> Vec<String> {
+        let mut v: Vec<String> = extra.iter().map(|s| s.to_string()).collect();
+        if style != "Default" {
+            v.push("--config".into());
+            v.push(format!("newline_style={style}"));
+        }
+        v.push("lib.rs".into());
+        v
+    };
+    let mut o = Outcome::pass();
+    o.labels.push(format!("bom:{style}:{}", if formatted { "formatted" } else { "unformatted" }));
+    o.nontrivial = true;
+    let fail = |class: &str, msg: String| -> Outcome {
+        let _ = std::fs::remove_dir_all(&base);
+        Outcome::fail(format!("bom:{class}"), format!("{msg}\nnewline_style={style}\n--- on disk ---\n{on_disk:?}")).nontrivial(true)
+    };
+    macro_rules! run {
+        ($dir:expr, $args:expr) => {
+            match run_rustfmt(r, $dir, $args, None) {
+                Some(x) => x,
+                None => {
+                    let _ = std::fs::remove_dir_all(&base);
+                    return Outcome::skip("cannot-run-rustfmt");
+                }
+            }
+        };
+    }
+    let d = fresh("check");
+    let (check_code, _out, err) = run!(&d, &args(&["--check"]));
+    if std::fs::read(d.join("lib.rs")).ok().as_deref() != Some(on_disk.as_bytes()) {
+        return fail("check-wrote", "--check changed the file".into());
+    }
+    if !matches!(check_code, Some(0) | Some(1)) {
+        return fail("check-status", format!("--check exits with {check_code:?}: {err}"));
+    }
+    let d = fresh("list-check");
+    let (_c, list_check, _e) = run!(&d, &args(&["--check", "-l"]));
+    let d = fresh("files");
+    let (code, list_files, err) = run!(&d, &args(&["-l"]));
+    if code != Some(0) {
+        return fail("files-status", format!("files mode exits with {code:?}: {err}"));
+    }
+    let after = std::fs::read(d.join("lib.rs")).unwrap_or_default();
+    let touched = std::fs::metadata(d.join("lib.rs")).and_then(|m| m.modified()).ok() != Some(past());
+    let rewritten = after != on_disk.as_bytes() || touched;
+    if (check_code == Some(1)) != rewritten {
+        return fail("check-disagrees-with-files-mode", format!("--check exits with {check_code:?}, plain rustfmt {} the file", if rewritten { "rewrites" } else { "does not touch" }));
+    }
+    if list_check.contains("lib.rs") != rewritten || list_files.contains("lib.rs") != rewritten {
+        return fail("list-disagrees", format!("-l prints {list_files:?}, --check -l prints {list_check:?}, the file is {}rewritten", if rewritten { "" } else { "not " }));
+    }
+    if !formatted && !rewritten {
+        return fail("unformatted-file-kept", "an unformatted file was not rewritten".into());
+    }
+    let expected = format_text(&on_disk, &vec![]);
+    if rewritten && expected.clean() && after != expected.text.as_bytes() && after != format!("\u{feff}{}", expected.text).as_bytes() {
+        return fail("files-wrong-bytes", format!("files mode left {:?}", String::from_utf8_lossy(&after)));
+    }
+    let _ = std::fs::remove_dir_all(&base);
+    o
+}
+
 fn past() -> SystemTime {
     SystemTime::UNIX_EPOCH + Duration::from_secs(1_000_000_000)
 }
@@ -259,9 +343,13 @@ impl Property for C06 {
         }
     }
     fn rule(&self) -> &'static str {
-        "generated crate trees in which a random subset of the reachable files is already formatted; the real binary runs on fresh copies (mtimes preset to a fixed past instant) in every mode: --check, --check -l, --emit stdout, --emit json, --emit checkstyle, --emit files, files with -l / --backup / --quiet, standard input for the root, and the histories check;format;check and format;format; oracle: the non-writing modes change no byte and no mtime; files mode rewrites exactly the files whose formatted text differs and leaves the mtime of the others alone; with no error --check exits 1 iff files mode rewrites a file; the stdout sections, the files-mode bytes, the stdin text of the root and the text obtained by applying the json blocks to the original are identical; the checkstyle messages are lines of the formatted text at the stated numbers; -l lists exactly the rewritten files; --backup leaves a .bk with the original for exactly those; after format, check passes and a second format touches nothing; one case in four is instead a single real file with LF or CRLF terminators, formatted or not, under newline_style Auto / Unix / Windows / Native given by --config or a rustfmt.toml: --check (also with --backup), -l, --emit stdout (also with --backup) and files mode (with and without --backup) must all agree on the expected bytes (formatted text with the terminators the style asks for) and the read-only modes write nothing; non-trivial = at least one unformatted and one formatted reachable file; distinct by case content"
+        "generated crate trees in which a random subset of the reachable files is already formatted (a quarter of those except for a missing final terminator or one surplus blank line at the end); the real binary runs on fresh copies (mtimes preset to a fixed past instant) in every mode: --check, --check -l, --emit stdout, --emit json, --emit checkstyle, --emit files, files with -l / --backup / --quiet, standard input for the root, and the histories check;format;check and format;format; oracle: the non-writing modes change no byte and no mtime; files mode rewrites exactly the files whose formatted text differs and leaves the mtime of the others alone; with no error --check exits 1 iff files mode rewrites a file; the stdout sections, the files-mode bytes, the stdin text of the root and the text obtained by applying the json blocks to the original are identical; the checkstyle messages are lines of the formatted text at the stated numbers; -l lists exactly the rewritten files; --backup leaves a .bk with the original for exactly those; after format, check passes and a second format touches nothing; one case in four is instead a single real file with LF or CRLF terminators, formatted or not, under newline_style Auto / Unix / Windows / Native given by --config or a rustfmt.toml: --check (also with --backup), -l, --emit stdout (also with --backup) and files mode (with and without --backup) must all agree on the expected bytes (formatted text with the terminators the style asks for) and the read-only modes write nothing; one case in twelve is a single real file starting with a byte-order mark, formatted or not: --check must exit 1 exactly when plain rustfmt rewrites (or touches) it, -l and --check -l must list it in exactly that case, and a rewritten file holds the complete formatted text; non-trivial = at least one unformatted and one formatted reachable file; distinct by case content"
     }
     fn generate(&self, c: &mut Choices<'_>, _g: &GenCtx) -> Value {
+        if c.chance(1, 12) {
+            // a real file with a byte-order mark
+            return json!({"kind": "bom", "body": *c.pick(NEWLINE_BODIES), "formatted": c.chance(2, 3), "style": *c.pick(&["Default", "Default", "Auto", "Unix"])});
+        }
         if c.chance(1, 4) {
             // explicit / automatic newline_style against the terminators of a real file
             let body = *c.pick(NEWLINE_BODIES);
@@ -280,11 +368,17 @@ impl Property for C06 {
         let n = t.files.len();
         let formatted: Vec<bool> = (0..n).map(|_| c.chance(2, 5)).collect();
         let newline = c.chance(1, 6);
-        json!({"tree": t, "formatted": formatted, "crlf_root": newline})
+        // an already formatted file that differs only at its end: 1 = no final terminator,
+        // 2 = one surplus blank line
+        let eof: Vec<usize> = (0..n).map(|_| c.weighted(&[6, 1, 1])).collect();
+        json!({"tree": t, "formatted": formatted, "crlf_root": newline, "eof": eof})
     }
     fn run(&self, case: &Value, r: &RunCtx) -> Outcome {
         if case["kind"].as_str() == Some("newline") {
             return run_newline(case, r);
+        }
+        if case["kind"].as_str() == Some("bom") {
+            return run_bom(case, r);
         }
         let Ok(mut tree) = serde_json::from_value::<Tree>(case["tree"].clone()) else {
             return Outcome::skip("bad-case");
@@ -300,6 +394,13 @@ impl Property for C06 {
                 }
                 if pre.get(i).copied().unwrap_or(false) {
                     f.content = w.text.clone();
+                    match case["eof"][i].as_u64() {
+                        Some(1) => {
+                            f.content.pop();
+                        }
+                        Some(2) => f.content.push('\n'),
+                        _ => {}
+                    }
                 }
                 want.insert(f.path.clone(), w.text);
             }
